@@ -39,6 +39,7 @@ var stratNames = []string{"uniform", "sticky", "pct", "deliver-eager", "deliver-
 
 // Env is one simulated run: one bubble, one world, one seed.
 type Env struct {
+	parkCh chan struct{} // see tornDown
 	W    *simhook.World
 	Gen  *rand.Rand // scenario / fault-plan generation
 	sch  *rand.Rand // scheduling decisions
@@ -652,6 +653,17 @@ func (e *Env) Teardown() {
 }
 
 // OnTeardown registers a cleanup (cancel funcs etc.).
+// tornDown returns a channel that is never closed while the run lasts: a task parked
+// on it stays parked (the bubble it lives in is abandoned at the end of the run).
+func (e *Env) tornDown() <-chan struct{} {
+	histMu.Lock()
+	defer histMu.Unlock()
+	if e.parkCh == nil {
+		e.parkCh = make(chan struct{})
+	}
+	return e.parkCh
+}
+
 func (e *Env) OnTeardown(f func()) {
 	histMu.Lock()
 	e.cleanup = append(e.cleanup, f)
